@@ -1,6 +1,6 @@
 (* Token-level entry point for the DHCP option-value part of C05 (case kinds 100..199).
    kind 100: [100; code; bytes(v); impl]   DhcpOption::new(code).get_type().and_then(|t| t.decode(v))
-        impl = 0 :: value | [1; 1] (decode None) | [1; 2] (no type) | [2] (panic)
+        impl = 0 :: value (see put_val) | [1; 1] (decode None) | [1; 2] (no type) | [2] (panic)
    kind 101: [101; which; bytes(v); impl]  DhcpParse impls not reached by decode:
         which 0 = u64 (impl [0; hi32; lo32]), 1 = MessageType ([0; b] | [1; 1]), 2 = Duration (as u64)
    kind 102: [102; bytes(pkt); impl]       dhcppkt::parse, then log_options, then to_array(chaddr)
@@ -13,9 +13,17 @@ From Erbium Require Import Lib.Base Model.DhcpCodec Model.DhcpOptVal.
 
 Definition dtoks_eqb := list_eqb N.eqb.
 
+(* `d.join(".")` *)
+Fixpoint join_dot (labels : list (list N)) : list N :=
+  match labels with
+  | [] => []
+  | [l] => l
+  | l :: r => l ++ 46 :: join_dot r
+  end.
+
 Definition put_val (v : oval) : list N :=
   match v with
-  | VString _ => [1]
+  | VString raw => 1 :: put_bytes raw
   | VIp a => [2; a]
   | VIpList l => 3 :: put_bytes l
   | VI32 x => [4; x]
@@ -24,7 +32,7 @@ Definition put_val (v : oval) : list N :=
   | VU32 x => [7; x]
   | VHwAddr b => 8 :: put_bytes b
   | VRoutes l => 9 :: lenN l :: flat_map (fun r => [fst (fst r); snd (fst r); snd r]) l
-  | VDomainList l => [10; lenN l]
+  | VDomainList l => 10 :: lenN l :: flat_map (fun d => put_bytes (join_dot d)) l
   | VUnknown b => 11 :: put_bytes b
   end.
 Definition put_oval (o : outcome oval) : list N :=
@@ -34,6 +42,28 @@ Definition val_tag (o : outcome oval) : N :=
   | Ok v => 100 + match put_val v with t :: _ => t | [] => 0 end
   | Err e => 119 + e
   | Panic _ => 199
+  end.
+
+(* String and DomainList values go through String::from_utf8_lossy, which is the
+   identity on ASCII; with other octets only the shape is compared *)
+Definition ascii (l : list N) : bool := forallb (fun b => b <? 128) l.
+Definition val_ascii (v : oval) : bool :=
+  match v with
+  | VString raw => ascii raw
+  | VDomainList l => forallb (forallb ascii) l
+  | _ => true
+  end.
+Definition val_head (v : oval) : list N :=
+  match v with
+  | VString _ => [0; 1]
+  | VDomainList l => [0; 10; lenN l]
+  | _ => []
+  end.
+Definition val_agrees (impl : list N) (m : outcome oval) : bool :=
+  match m with
+  | Ok v => if val_ascii v then dtoks_eqb impl (put_oval m)
+            else dtoks_eqb (takeN (lenN (val_head v)) impl) (val_head v)
+  | _ => dtoks_eqb impl (put_oval m)
   end.
 
 Definition put_array (a : option (list N)) : list N :=
@@ -54,7 +84,7 @@ Definition check_C05_dhcpopt (ts : list N) : list N :=
       match impl with
       | 2 :: _ => v_viol 100
       | _ => let m := dhcp_option_decode code v in
-             if dtoks_eqb impl (put_oval m) then v_ok (val_tag m) else v_diff (put_oval m)
+             if val_agrees impl m then v_ok (val_tag m) else v_diff (put_oval m)
       end
     | None => v_bad
     end
